@@ -452,3 +452,130 @@ def later_reads_see_writes(ops, impl):
             if store is None:
                 break
     return None
+
+
+# --------------------------------------------------------------------------------------------------
+# C02 "absorbed exactly when reply_on Error/Always and the reply handler succeeds" / C01 "Ok with every effect persisted":
+# a syntactic SUFFICIENT condition for "this invocation returns Ok", evaluated on the op text and on which
+# contracts the implementation itself listed in its last dump.
+
+_PLAIN_OK = ("rm", "rd", "rng", "rngk", "data", "qbal", "qall", "qsup", "qraw", "qinfo", "qcode")
+
+
+def contracts_in_dump(dump):
+    m = re.search(r" contracts\{([^}]*)\}", dump)
+    if not m:
+        return set()
+    return set(e.split("=", 1)[0] for e in m.group(1).split(";") if e)
+
+
+def store_in_dump(dump, addr):
+    """records of one contract as {hexkey: hexval} from a `dump` line, {} when the contract has none"""
+    m = re.search(r" store\{([^}]*)\}", dump)
+    if not m:
+        return None
+    for e in m.group(1).split(";"):
+        if e.startswith(addr + "=["):
+            body = e[len(addr) + 2:-1]
+            return dict(kv.split("=", 1) for kv in body.split(",") if kv)
+    return {}
+
+
+def certainly_ok(script, existing, b):
+    from pred_wasm import action_malformed, msg_certainly_fails
+    if not isinstance(script, list):
+        return False
+    for a in script:
+        if not isinstance(a, list) or not a:
+            return False
+        h = a[0]
+        if h == "w":
+            if len(a) < 3 or a[2] == "-" or unhex(a[1]) is None or not unhex(a[2]):
+                return False
+        elif h in _PLAIN_OK:
+            continue
+        elif h in ("attr", "ev"):
+            if action_malformed(a):
+                return False
+        elif h == "sub" and len(a) >= 5:
+            mode, reply, m = a[2], a[3], a[4]
+            if msg_certainly_fails(m):
+                if mode not in ("error", "always") or not certainly_ok(reply, existing, b):
+                    return False
+            elif msg_certainly_ok(m, existing, b):
+                if mode in ("success", "always") and not certainly_ok(reply, existing, b):
+                    return False
+            else:
+                return False
+        elif h == "msg" and len(a) >= 2:
+            if not msg_certainly_ok(a[1], existing, b):
+                return False
+        else:
+            return False
+    return True
+
+
+def msg_certainly_ok(m, existing, b):
+    return (isinstance(m, list) and len(m) >= 4 and m[0] == "exec" and m[3] == "-" and isinstance(m[1], str)
+            and b.get(m[1], m[1]) in existing and certainly_ok(m[2], existing, b))
+
+
+def must_succeed(ops, impl):
+    """a top-level execute of an existing contract whose whole tree certainly succeeds (failures only inside sub-messages
+    sent with reply_on error/always whose reply scripts certainly succeed) must return Ok"""
+    b = binds_of(ops)
+    existing = {}
+    app = "1"
+    for n, (op, out) in enumerate(zip(ops, impl)):
+        t = op.split(" ", 1)[0]
+        if t == "app":
+            app = op.split()[1]
+        elif t == "dump":
+            existing[app] = contracts_in_dump(out)
+        elif t == "exec" and app in existing:
+            items = parse_sx(op)
+            if items and len(items) > 2 and isinstance(items[1], str) and msg_certainly_ok(items[2], existing[app], b):
+                if out.split(" ", 1)[0] != "ok":
+                    return "op %d `%s` returned %s although every failure in its tree is confined to sub-messages sent with reply_on error/always whose reply handlers succeed" % (n, op[:200], out[:40])
+    return None
+
+
+def own_writes_persist(ops, impl):
+    """Ok with every effect persisted: a successful top-level execute whose tree is one script (no messages) leaves exactly
+    the last write / removal of every key it touched in that contract's state"""
+    b = binds_of(ops)
+    for n, (op, out) in enumerate(zip(ops, impl)):
+        if not op.startswith("exec ") or out.split(" ", 1)[0] != "ok":
+            continue
+        items = parse_sx(op)
+        if not items or len(items) < 3 or not isinstance(items[2], list) or len(items[2]) < 3 or items[2][0] != "exec":
+            continue
+        sc = items[2][2]
+        if not isinstance(sc, list) or any(isinstance(a, list) and a and a[0] in ("sub", "msg") for a in sc):
+            continue
+        final = {}
+        for a in sc:
+            if isinstance(a, list) and len(a) >= 2 and a[0] in ("w", "rm"):
+                k = unhex(a[1])
+                if k is None:
+                    final = None
+                    break
+                final[hexs(k)] = hexs(unhex(a[2]) or b"") if a[0] == "w" and len(a) >= 3 else None
+        if not final:
+            continue
+        # the next dump before any other state-changing op
+        for k in range(n + 1, min(n + 6, len(ops))):
+            hk = ops[k].split(" ", 1)[0]
+            if hk == "dump":
+                addr = b.get(items[2][1], items[2][1])
+                st = store_in_dump(impl[k], addr)
+                if st is None:
+                    break
+                for key, want in final.items():
+                    if st.get(key) != want:
+                        return "op %d `%s` returned Ok but afterwards key %s of %s holds %s, its last operation on that key left %s" % (
+                            n, op[:200], key, items[2][1], st.get(key), want)
+                break
+            if hk not in READ_OPS:
+                break
+    return None
